@@ -117,6 +117,22 @@ func c01Scenarios(thorough bool) []pwScenario {
 			out = append(out, pwScenario{Name: "S8-restart;repeat-add||add/" + n, Cfg: rs, Threads: [][]pwOp{ops("add:a"), ops("add:b")}, After: ops("del:a", "add:c"), Budget: [4]int{pb, 1, 0, 0}})
 		}
 	}
+	if !thorough {
+		// quick: the other selection policy at least for the repeat-ADD scenarios (a request pinned to the interface the
+		// pod already uses meets an empty slot that sorts FIRST under least_ips)
+		for _, st := range stacks {
+			base := pwCfg{V4: st.v4, V6: st.v6, Cap: 3, Batch: 2, MinIdle: 0, MaxIdle: 5, Slots: 2, Policy: daemon.EniSelectionPolicyLeastIPs}
+			one := base
+			one.Pre = []pwPre{pre(1, 1, st, "secondary")}
+			rs := base
+			rs.Pre = []pwPre{pre(3, 2, st, "secondary")}
+			rs.Stored = map[string]int{"a": 0}
+			n := st.name + "/" + string(daemon.EniSelectionPolicyLeastIPs)
+			out = append(out,
+				pwScenario{Name: "S3-add;add||add/" + n, Cfg: one, Threads: [][]pwOp{ops("add:a", "add:a"), ops("add:b")}, Budget: [4]int{1, 0, 0, 0}},
+				pwScenario{Name: "S8-restart;repeat-add||add/" + n, Cfg: rs, Threads: [][]pwOp{ops("add:a"), ops("add:b")}, After: ops("del:a", "add:c"), Budget: [4]int{1, 0, 0, 0}})
+		}
+	}
 	return out
 }
 
